@@ -89,7 +89,7 @@ func flatAlphabet(keys, classes []string, macros bool) func(x *apix.Exec, t *hx.
 		ops = append(ops, op("get", pp, keys[0], ""))
 		if macros {
 			ops = append(ops, apix.Op{K: "fill", P: pp, Key: "k", V: "M", N: 9}, apix.Op{K: "drain", P: pp})
-			ops = append(ops, apix.Op{K: "seqnext", P: pp})
+			ops = append(ops, apix.Op{K: "seqnext", P: pp}, apix.Op{K: "seqset", P: pp, N: 9})
 		}
 		return ops
 	}
@@ -129,7 +129,7 @@ func nestedAlphabet(names []string, depth int, moves bool) func(x *apix.Exec, t 
 				}
 			}
 			if len(bp) > 0 {
-				ops = append(ops, op("put", bp, "a", "s"), op("put", bp, "r", "s"), op("put", bp, names[0], "s"), op("del", bp, "a", ""), apix.Op{K: "seqnext", P: bp})
+				ops = append(ops, op("put", bp, "a", "s"), op("put", bp, "r", "s"), op("put", bp, names[0], "s"), op("del", bp, "a", ""), apix.Op{K: "seqnext", P: bp}, apix.Op{K: "seqset", P: bp, N: 9})
 			}
 		}
 		return ops
